@@ -149,6 +149,17 @@ theorem dinv_store {c : CCfg2} {s : St} (d : Nat) (key : Key) (e : Entry) (hI : 
   · simp only [h1, if_false] at he'
     exact hI.ents d' key' e' he'
 
+theorem dinv_storeM {c : CCfg2} {s : St} (d : Nat) (key : Key) (e : Entry) (hI : DInv c s)
+    (hd : d < s.nextId) (hev : EVs s (c.srcOf key) e) (hep : s.ep d ≤ e.tr) : DInv c (storeM c s d key e) := by
+  unfold storeM
+  split
+  · exact hI
+  · exact dinv_store d key e hI hd hev hep
+
+theorem ext_storeM (c : CCfg2) (s : St) (d : Nat) (key : Key) (e : Entry) : Ext s (storeM c s d key e) := by
+  unfold storeM
+  split <;> exact ⟨Nat.le_refl _, fun _ _ => rfl, Nat.le_refl _, fun _ _ => rfl, fun _ _ => rfl⟩
+
 theorem ext_act (s : St) (l : Lvl) : Ext s (actSt s l) := by
   have hb : ∀ d, d < s.nextId → (if d = s.nextId then s.now else s.born d) = s.born d := by
     intro d hd; have : d ≠ s.nextId := Nat.ne_of_lt hd; simp [this]
@@ -299,14 +310,17 @@ theorem cstep_dinv {c : CCfg2} {s s1 : St} (tid : Nat) (hI : DInv c s)
     simp only [cstep] at h
     obtain ⟨a, b, c', d', e', f'⟩ := hT
     simp only [Option.some.injEq] at h; subst h
-    have hI' : DInv c (store s pd (.src g) e) := dinv_store pd (.src g) e hI d' b e'
-    exact dinv_afterProc tid g cs fd e _ hI' a b c' f'
+    have hI' : DInv c (storeM c s pd (.src g) e) := dinv_storeM pd (.src g) e hI d' b e'
+    have hx := ext_storeM c s pd (.src g) e
+    refine dinv_afterProc tid g cs fd e _ hI' (FDOK_ext hx a) (EVs_ext hx b) c' (fun f d t hfd => ?_)
+    rw [hx.ep _ (a f d t hfd).2.2.2.1]; exact f' f d t hfd
   | f4 f g cs d e how =>
     simp only [cstep] at h
     obtain ⟨a, b, c', d', e'⟩ := hT
     simp only [Option.some.injEq] at h; subst h
-    have hI' : DInv c (store s d (.fn f) e) := dinv_store d (.fn f) e hI c' (by show EVs s (c.fsrc f) e; rw [a]; exact b) d'
-    exact dinv_setPc tid _ hI' ⟨b, e'⟩
+    have hI' : DInv c (storeM c s d (.fn f) e) := dinv_storeM d (.fn f) e hI c' (by show EVs s (c.fsrc f) e; rw [a]; exact b) d'
+    have hx := ext_storeM c s d (.fn f) e
+    exact dinv_setPc tid _ hI' ⟨EVs_ext hx b, HowInv_ext hx e'⟩
   | ret g cs e how =>
     simp only [cstep, Option.some.injEq] at h; subst h
     exact dinv_setPc tid _ hI trivial
@@ -383,6 +397,13 @@ theorem linv_setPc {c : CCfg2} {s : St} (tid : Nat) (pc : PC) (h : LInv c s) : L
 theorem linv_store {c : CCfg2} {s : St} (d : Nat) (key : Key) (e : Entry) (h : LInv c s) : LInv c (store s d key e) :=
   linv_congr h rfl rfl rfl (fun _ => rfl)
 
+theorem linv_storeM {c : CCfg2} {s : St} (d : Nat) (key : Key) (e : Entry) (h : LInv c s) :
+    LInv c (storeM c s d key e) := by
+  unfold storeM
+  split
+  · exact h
+  · exact linv_store d key e h
+
 theorem linv_afterProc {c : CCfg2} {s : St} (tid g cs : Nat) (fd : Option (Nat × Nat × Nat)) (e : Entry) (how : How)
     (h : LInv c s) : LInv c (afterProc s tid g cs fd e how) := by
   unfold afterProc; split <;> exact linv_setPc tid _ h
@@ -416,10 +437,10 @@ theorem cstep_linv {c : CCfg2} {s s1 : St} (tid : Nat) (pc : PC) (hI : LInv c s)
       · simp only [Option.some.injEq] at h; subst h; exact linv_afterProc tid g cs fd _ _ hI
   | p4 g cs fd pd e =>
     simp only [cstep, Option.some.injEq] at h; subst h
-    exact linv_afterProc tid g cs fd _ _ (linv_store pd _ e hI)
+    exact linv_afterProc tid g cs fd _ _ (linv_storeM pd _ e hI)
   | f4 f g cs d e how =>
     simp only [cstep, Option.some.injEq] at h; subst h
-    exact linv_setPc tid _ (linv_store d _ e hI)
+    exact linv_setPc tid _ (linv_storeM d _ e hI)
   | ret g cs e how => simp only [cstep, Option.some.injEq] at h; subst h; exact linv_setPc tid _ hI
   | retErr g cs => simp only [cstep, Option.some.injEq] at h; subst h; exact linv_setPc tid _ hI
 
